@@ -8,11 +8,11 @@
 //! image sizes in cells are obtained from the real code and sent with the case.
 use crate::util::*;
 use serde_json::{json, Value};
-use std::collections::{BTreeSet, HashMap};
+use std::collections::{BTreeSet, HashMap, HashSet, VecDeque};
 use std::io::Write;
 use surf_n_term::{
-    render::TerminalRenderer, Cell, Error, Face, FaceAttrs, FillRule, Glyph, Image, Path, Position,
-    Size, SurfaceMut, SurfaceOwned, Terminal, TerminalCaps, TerminalCommand, TerminalEvent, TerminalSize,
+    render::TerminalRenderer, Cell, DecMode, Error, Face, FaceAttrs, FillRule, Glyph, Image, Path, Position, UnderlineStyle,
+    Size, SurfaceMut, SurfaceOwned, Terminal, TerminalAction, TerminalCaps, TerminalCommand, TerminalEvent, TerminalSize,
     TerminalWaker, RGBA,
 };
 
@@ -75,9 +75,33 @@ impl Terminal for RecTerm {
 const NARROW: [u32; 6] = [0x20, 0x61, 0x62, 0x78, 0x2500, 0xE9];
 const WIDE: [u32; 3] = [0x4E16, 0x754C, 0x1F600];
 const ZERO: [u32; 2] = [0x0301, 0x07];
-const NFACES: u64 = 7;
+const NFACES: u64 = 14;
 const NIMAGES: u64 = 3;
 const NGLYPHS: u64 = 2;
+
+/// attributes that are visible on a cell without a character
+fn shows_on_blank(f: Face) -> bool {
+    f.attrs.underline() != UnderlineStyle::None || f.attrs.contains(FaceAttrs::REVERSE) || f.attrs.contains(FaceAttrs::STRIKE)
+}
+/// how a space printed in face f looks: background, plus foreground and the line/reverse attributes if any
+fn look_of_space(f: Face) -> Face {
+    if shows_on_blank(f) {
+        let mut attrs = FaceAttrs::EMPTY;
+        for a in [FaceAttrs::REVERSE, FaceAttrs::STRIKE] {
+            if f.attrs.contains(a) {
+                attrs = attrs.insert(a);
+            }
+        }
+        attrs = attrs.insert(FaceAttrs::from(f.attrs.underline()));
+        Face::new(f.fg, f.bg, attrs)
+    } else {
+        Face::new(None, f.bg, FaceAttrs::EMPTY)
+    }
+}
+/// how a cell erased (ECH) under face f looks: the background colour only
+fn look_of_erased(f: Face) -> Face {
+    Face::new(None, f.bg, FaceAttrs::EMPTY)
+}
 
 struct Pools {
     faces: Vec<Face>,
@@ -88,7 +112,7 @@ struct Pools {
 fn pools() -> Pools {
     let red = Some(RGBA::new(200, 30, 30, 255));
     let blue = Some(RGBA::new(20, 40, 160, 255));
-    let faces = vec![
+    let mut faces = vec![
         Face::default(),
         Face::new(red, None, FaceAttrs::EMPTY),
         Face::new(None, blue, FaceAttrs::EMPTY),
@@ -96,9 +120,26 @@ fn pools() -> Pools {
         // pairs that differ in one component only
         Face::new(red, None, FaceAttrs::BOLD),
         Face::new(red, blue, FaceAttrs::EMPTY),
+        // attributes that show on a blank cell
+        Face::new(None, blue, FaceAttrs::UNDERLINE),
+        Face::new(red, None, FaceAttrs::REVERSE),
+        Face::new(None, blue, FaceAttrs::STRIKE),
+        Face::new(red, None, FaceAttrs::UNDERLINE_CURLY.insert(FaceAttrs::BOLD)),
+        Face::new(None, None, FaceAttrs::UNDERLINE_DOUBLE),
+        Face::new(None, blue, FaceAttrs::UNDERLINE_DOTTED),
+        Face::new(red, blue, FaceAttrs::UNDERLINE_DASHED),
         // the value frame() used to initialise its tracked face with
         Face::default().with_bg(Some(RGBA::new(1, 2, 3, 255))),
     ];
+    assert_eq!(faces.len() as u64, NFACES);
+    // faces that only occur as the look of blank cells get the following indices
+    for i in 0..NFACES as usize {
+        for f in [look_of_space(faces[i]), look_of_erased(faces[i])] {
+            if !faces.contains(&f) {
+                faces.push(f);
+            }
+        }
+    }
     // pixels per cell are 20 x 10: cell sizes 1x1, 2x3, 3x2 (the last one through rounding up)
     let mk = |h: usize, w: usize, v: u8| {
         Image::from(SurfaceOwned::new_with(Size::new(h, w), |p| RGBA::new(v, (p.row * 7) as u8, (p.col * 5) as u8, 255)))
@@ -227,25 +268,43 @@ fn in_domain(env: &mut Env, p: &Pools, s: &Surf, h: usize, w: usize) -> bool {
     true
 }
 
-fn overlap_free(env: &mut Env, p: &Pools, s: &Surf, h: usize, w: usize) -> bool {
-    let mut count = vec![vec![0u32; w]; h];
+/// (two images, an image and a wide character, two wide characters) occupy a common cell
+fn overlap_kinds(env: &mut Env, p: &Pools, s: &Surf, h: usize, w: usize) -> (bool, bool, bool) {
+    let mut ni = vec![vec![0u32; w]; h];
+    let mut nw = vec![vec![0u32; w]; h];
     for (r0, row) in s.iter().enumerate() {
         for (c0, c) in row.iter().enumerate() {
             if let Some((eh, ew)) = env.extent(p, *c) {
                 for r in r0..(r0 + eh).min(h) {
                     for cc in c0..(c0 + ew).min(w) {
-                        count[r][cc] += 1;
+                        if c.k == 0 {
+                            nw[r][cc] += 1;
+                        } else {
+                            ni[r][cc] += 1;
+                        }
                     }
                 }
             }
         }
     }
-    count.iter().all(|row| row.iter().all(|n| *n <= 1))
+    let mut k = (false, false, false);
+    for r in 0..h {
+        for c in 0..w {
+            k.0 |= ni[r][c] >= 2;
+            k.1 |= ni[r][c] >= 1 && nw[r][c] >= 1;
+            k.2 |= nw[r][c] >= 2;
+        }
+    }
+    k
+}
+
+fn overlap_free(env: &mut Env, p: &Pools, s: &Surf, h: usize, w: usize) -> bool {
+    overlap_kinds(env, p, s, h, w) == (false, false, false)
 }
 
 // ---------------------------------------------------------------- running one history
 fn to_cell(p: &Pools, c: C) -> Cell {
-    let face = p.faces[c.f as usize % p.faces.len()];
+    let face = p.faces[c.f as usize % NFACES as usize];
     match c.k {
         0 => Cell::new_char(face, char::from_u32(c.v).unwrap_or(' ')),
         1 => Cell::new_image(p.images[c.v as usize % p.images.len()].clone()).with_face(face),
@@ -301,9 +360,69 @@ impl<'a> Namer<'a> {
                 let i = self.image(img, None);
                 (format!("unimg {} {} {}", i, p.row, p.col), json!(["image_erase", i, p.row, p.col]))
             }
+            TerminalCommand::DecModeSet { enable, mode: DecMode::SynchronizedOutput } => {
+                (format!("CSync {}", cbool(*enable)), json!(["sync", enable]))
+            }
             other => ("COther".to_string(), json!(["other", format!("{:?}", other)])),
         }
     }
+}
+
+/// an arbitrary terminal screen: cells [kind, face, char] with kind 0 Blank, 1 Ch, 2 WL, 3 WR, 4 Orphan
+type Screen = Vec<Vec<(u8, u8, u32)>>;
+
+fn screen_json(g: &Screen) -> Value {
+    Value::Array(g.iter().map(|r| Value::Array(r.iter().map(|c| json!([c.0, c.1, c.2])).collect())).collect())
+}
+fn screen_parse(v: &Value) -> Screen {
+    v.as_array()
+        .map(|rows| {
+            rows.iter()
+                .map(|row| {
+                    row.as_array()
+                        .map(|cs| {
+                            cs.iter()
+                                .map(|c| {
+                                    (c[0].as_u64().unwrap_or(0) as u8, c[1].as_u64().unwrap_or(0) as u8, c[2].as_u64().unwrap_or(0x20) as u32)
+                                })
+                                .collect()
+                        })
+                        .unwrap_or_default()
+                })
+                .collect()
+        })
+        .unwrap_or_default()
+}
+fn screen_coq(g: &Screen) -> String {
+    clist(g.iter().map(|row| {
+        clist(row.iter().map(|c| match c.0 {
+            0 => format!("sb {}", c.1),
+            1 => format!("sc {} {}", c.2, c.1),
+            2 => format!("sl {} {}", c.2, c.1),
+            3 => format!("sr {}", c.1),
+            _ => format!("so {}", c.1),
+        }))
+    }))
+}
+fn gen_screen(rng: &mut Rng, p: &Pools, h: usize, w: usize) -> Screen {
+    // anything at all: also unpaired halves of wide characters and orphaned cells
+    (0..h)
+        .map(|_| {
+            (0..w)
+                .map(|_| {
+                    let f = rng.below(p.faces.len() as u64) as u8;
+                    match rng.below(8) {
+                        0 | 1 => (0, f, 0x20),
+                        2 | 3 => (1, f, *rng.pick(&NARROW[1..])),
+                        4 => (2, f, *rng.pick(&WIDE)),
+                        5 => (3, f, 0x20),
+                        6 => (4, f, 0x20),
+                        _ => (1, f, 0x7A),
+                    }
+                })
+                .collect()
+        })
+        .collect()
 }
 
 #[derive(Clone, Debug)]
@@ -313,6 +432,8 @@ enum Op {
     Skip,
     Clear,
     Renew,
+    /// the terminal is resized and shows the given screen; run_render then does clear() and new(_, true)
+    Resize(usize, usize, Screen),
 }
 
 fn ops_parse(v: &Value) -> Vec<Op> {
@@ -324,6 +445,11 @@ fn ops_parse(v: &Value) -> Vec<Op> {
                     "skip" => Op::Skip,
                     "clear" => Op::Clear,
                     "renew" => Op::Renew,
+                    "resize" => Op::Resize(
+                        o["h"].as_u64().unwrap_or(1) as usize,
+                        o["w"].as_u64().unwrap_or(1) as usize,
+                        screen_parse(&o["screen"]),
+                    ),
                     _ => Op::Frame,
                 })
                 .collect()
@@ -340,19 +466,21 @@ fn ops_json(ops: &[Op]) -> Value {
                 Op::Skip => json!({"op": "skip"}),
                 Op::Clear => json!({"op": "clear"}),
                 Op::Renew => json!({"op": "renew"}),
+                Op::Resize(h, w, g) => json!({"op": "resize", "h": h, "w": w, "screen": screen_json(g)}),
             })
             .collect(),
     )
 }
 
 /// drive the real renderer; one command list per operation (None = panic)
-fn drive(p: &Pools, h: usize, w: usize, ops: &[Op]) -> Option<Vec<Vec<(String, Value)>>> {
+fn drive(p: &Pools, h: usize, w: usize, clear: bool, ops: &[Op]) -> Option<Vec<Vec<(String, Value)>>> {
     let ops = ops.to_vec();
     let p2: &Pools = p;
     let res = std::panic::catch_unwind(std::panic::AssertUnwindSafe(move || {
+        let (mut h, mut w) = (h, w);
         let mut namer = Namer::new(p2);
         let mut term = RecTerm::new(h, w);
-        let mut rend = TerminalRenderer::new(&mut term, false).expect("new");
+        let mut rend = TerminalRenderer::new(&mut term, clear).expect("new");
         let mut drawn = blank_surf(h, w);
         let mut out = vec![];
         for op in &ops {
@@ -382,9 +510,17 @@ fn drive(p: &Pools, h: usize, w: usize, ops: &[Op]) -> Option<Vec<Vec<(String, V
                     rend.clear(&mut term).expect("clear");
                     rend = TerminalRenderer::new(&mut term, true).expect("new");
                 }
+                Op::Resize(h2, w2, _) => {
+                    // Terminal::run_render on TerminalEvent::Resize
+                    term.size = RecTerm::new(*h2, *w2).size;
+                    rend.clear(&mut term).expect("clear");
+                    rend = TerminalRenderer::new(&mut term, true).expect("new");
+                    h = *h2;
+                    w = *w2;
+                }
             }
             let cmds: Vec<(String, Value)> = term.cmds.iter().map(|c| namer.cmd(c, &drawn)).collect();
-            if !matches!(op, Op::Draw(_)) {
+            if !matches!(op, Op::Draw(_) | Op::Clear) {
                 drawn = blank_surf(h, w);
             }
             out.push(cmds);
@@ -394,7 +530,20 @@ fn drive(p: &Pools, h: usize, w: usize, ops: &[Op]) -> Option<Vec<Vec<(String, V
     res.ok()
 }
 
+fn face_tables(p: &Pools) -> (String, String, String) {
+    let idx = |f: Face| p.faces.iter().position(|x| *x == f).unwrap_or(99);
+    (
+        clist((0..p.faces.len()).map(|i| format!("({}, {})", i, idx(look_of_space(p.faces[i]))))),
+        clist((0..p.faces.len()).map(|i| format!("({}, {})", i, idx(look_of_erased(p.faces[i]))))),
+        clist((0..p.faces.len()).filter(|i| !shows_on_blank(p.faces[*i])).map(|i| i.to_string())),
+    )
+}
+
 fn run(p: &Pools, input: &Value) -> Case {
+    if input["kind"].as_str() == Some("loop") {
+        let (fsp, fer, ers) = face_tables(p);
+        return run_loop(p, input, |chars| clist(chars.iter().map(|c| format!("({}, {})", c, char_width(*c)))), &fsp, &fer, &ers);
+    }
     let h = input["h"].as_u64().unwrap_or(1) as usize;
     let w = input["w"].as_u64().unwrap_or(1) as usize;
     let ops = ops_parse(&input["ops"]);
@@ -405,9 +554,18 @@ fn run(p: &Pools, input: &Value) -> Case {
     chars.insert(0x20);
     let mut glyph_ids: BTreeSet<(u32, u8)> = BTreeSet::new();
     let mut dom = true;
-    let mut ovl = false;
+    let mut kinds = (false, false, false);
     let (mut has_wide, mut has_img, mut has_glyph, mut has_shadow_edit) = (false, false, false, false);
+    let (h0, w0) = (h, w);
+    let (mut h, mut w) = (h, w);
     for op in &ops {
+        if let Op::Resize(h2, w2, g) = op {
+            h = *h2;
+            w = *w2;
+            if g.len() != h || g.iter().any(|r| r.len() != w) {
+                dom = false;
+            }
+        }
         if let Op::Draw(s) = op {
             for row in s {
                 for c in row {
@@ -429,9 +587,8 @@ fn run(p: &Pools, input: &Value) -> Case {
             if !in_domain(&mut env, p, s, h, w) {
                 dom = false;
             }
-            if !overlap_free(&mut env, p, s, h, w) {
-                ovl = true;
-            }
+            let k = overlap_kinds(&mut env, p, s, h, w);
+            kinds = (kinds.0 | k.0, kinds.1 | k.1, kinds.2 | k.2);
             for row in s {
                 for i in 1..row.len() {
                     if row[i - 1].k == 0 && env.width(row[i - 1].v) == 2 && row[i] != BLANK {
@@ -441,7 +598,9 @@ fn run(p: &Pools, input: &Value) -> Case {
             }
         }
     }
-    let overlap = dom && ovl;
+    let (h, w) = (h0, w0);
+    let kinds = (dom && kinds.0, dom && kinds.1, dom && kinds.2);
+    let overlap = kinds.0 || kinds.1 || kinds.2;
     let widths = clist(chars.iter().map(|c| format!("({}, {})", c, env.width(*c))));
     let mut isizes: Vec<String> =
         env.isize.clone().iter().enumerate().map(|(i, (a, b))| format!("({}, ({}, {}))", i, a, b)).collect();
@@ -450,7 +609,15 @@ fn run(p: &Pools, input: &Value) -> Case {
         isizes.push(format!("({}, ({}, {}))", 1000 + 16 * (*g as u64) + *f as u64, a, b));
     }
 
-    let observed = drive(p, h, w, &ops);
+    let idx = |f: Face| p.faces.iter().position(|x| *x == f).unwrap_or(99);
+    let fsp = clist((0..p.faces.len()).map(|i| format!("({}, {})", i, idx(look_of_space(p.faces[i])))));
+    let fer = clist((0..p.faces.len()).map(|i| format!("({}, {})", i, idx(look_of_erased(p.faces[i])))));
+    let ers = clist((0..p.faces.len()).filter(|i| !shows_on_blank(p.faces[*i])).map(|i| i.to_string()));
+
+    if input["kind"].as_str() == Some("forced") {
+        return run_forced(p, input, &ops, dom && !(kinds.0 || kinds.1), &widths, &clist(isizes), &fsp, &fer, &ers);
+    }
+    let observed = drive(p, h, w, false, &ops);
     let (impl_coq, impl_json, ncmds, has_ech) = match &observed {
         None => ("[[COther]]".to_string(), json!("panic"), 0usize, false),
         Some(per_op) => (
@@ -466,12 +633,20 @@ fn run(p: &Pools, input: &Value) -> Case {
         Op::Skip => "SkipFrame".to_string(),
         Op::Clear => "Clear".to_string(),
         Op::Renew => "Renew".to_string(),
+        Op::Resize(h2, w2, g) => format!("rsz {} {} {}", h2, w2, screen_coq(g)),
     }));
     let nframes = ops.iter().filter(|o| matches!(o, Op::Frame)).count();
     let mut j = json!({"h": h, "w": w, "ops": ops_json(&ops)});
     j["impl"] = impl_json;
-    if overlap {
-        j["known_class"] = json!(["Overlap"]);
+    if kinds.0 || kinds.1 {
+        let mut tags = vec![];
+        // wide characters hiding one another (kinds.2) are inside the theorems: not a known class
+        for (on, name) in [(kinds.0, "OverlapImages"), (kinds.1, "OverlapWideImage")] {
+            if on {
+                tags.push(name);
+            }
+        }
+        j["known_class"] = json!(tags);
     }
     let mut tags = vec![
         format!("cells={}", match h * w { 0..=4 => "1-4", 5..=16 => "5-16", 17..=36 => "17-36", _ => "37-72" }),
@@ -487,6 +662,8 @@ fn run(p: &Pools, input: &Value) -> Case {
         ("erase-chars", has_ech),
         ("clear", ops.iter().any(|o| matches!(o, Op::Clear))),
         ("renew", ops.iter().any(|o| matches!(o, Op::Renew))),
+        ("resize", ops.iter().any(|o| matches!(o, Op::Resize(..)))),
+        ("draw-clear-frame", ops.windows(3).any(|x| matches!(x, [Op::Draw(_), Op::Clear, Op::Frame]))),
         ("skip", ops.iter().any(|o| matches!(o, Op::Skip))),
         ("panic", observed.is_none()),
     ] {
@@ -496,12 +673,348 @@ fn run(p: &Pools, input: &Value) -> Case {
     }
     Case {
         coq: format!(
-            "Hist {} {} {} {} {} {} {}",
-            h, w, widths, clist(isizes), ops_coq, impl_coq, cbool(overlap)
+            "Hist {} {} {} {} {} {} {} {} {} {}",
+            h, w, widths, clist(isizes), fsp, fer, ers, ops_coq, impl_coq,
+            format!("{} {} {}", cbool(kinds.0), cbool(kinds.1), cbool(kinds.2))
         ),
         json: j,
         tags,
         nontrivial: nframes >= 2 && ncmds > 0,
+    }
+}
+
+/// C01_forced on the code: a fresh renderer with clear = true, on a terminal that shows an arbitrary
+/// screen with placements the renderer does not know of; ops = [Draw s; Frame]
+#[allow(clippy::too_many_arguments)]
+fn run_forced(
+    p: &Pools, input: &Value, ops: &[Op], good: bool, widths: &str, isizes: &str, fsp: &str, fer: &str, ers: &str,
+) -> Case {
+    let h = input["h"].as_u64().unwrap_or(1) as usize;
+    let w = input["w"].as_u64().unwrap_or(1) as usize;
+    let screen = screen_parse(&input["screen"]);
+    let foreign: Vec<(u64, u64, u64)> = input["foreign"]
+        .as_array()
+        .map(|a| a.iter().map(|x| (x[0].as_u64().unwrap_or(0), x[1].as_u64().unwrap_or(0), x[2].as_u64().unwrap_or(0))).collect())
+        .unwrap_or_default();
+    let surf = ops.iter().find_map(|o| if let Op::Draw(s) = o { Some(s.clone()) } else { None }).unwrap_or_else(|| blank_surf(h, w));
+    let observed = drive(p, h, w, true, &[Op::Draw(surf.clone()), Op::Frame]);
+    let (impl_coq, impl_json) = match &observed {
+        None => ("[COther]".to_string(), json!("panic")),
+        Some(per_op) => (
+            clist(per_op[1].iter().map(|(s, _)| s.clone())),
+            Value::Array(per_op[1].iter().map(|(_, j)| j.clone()).collect()),
+        ),
+    };
+    let mut j = input.clone();
+    j["impl"] = impl_json;
+    Case {
+        coq: format!(
+            "Forced {} {} {} {} {} {} {} {} {} {} {} {}",
+            h, w, widths, isizes, fsp, fer, ers, screen_coq(&screen),
+            clist(foreign.iter().map(|(i, r, c)| format!("({}, {}, {})", i, r, c))),
+            surf_coq(&surf), impl_coq, cbool(good)
+        ),
+        json: j,
+        tags: vec!["kind=forced".to_string(), format!("domain={}", if good { "in" } else { "out" })],
+        nontrivial: observed.map(|o| !o[1].is_empty()).unwrap_or(false),
+    }
+}
+
+// ---------------------------------------------------------------- the render loop
+/// one iteration of Terminal::run_render as scripted by a case
+#[derive(Clone, Debug)]
+struct It {
+    accept: usize,          // chunks the tty takes during this poll
+    draw: Surf,             // what the handler draws
+    frame: bool,            // TerminalAction::Wait (true) or WaitNoFrame
+    pending: Option<usize>, // the answer of frames_pending(); None: the number of pending chunks
+    keep: usize,            // chunks at the front of the queue that survive frames_drop()
+}
+
+fn its_parse(v: &Value) -> Vec<It> {
+    v.as_array()
+        .map(|a| {
+            a.iter()
+                .map(|o| It {
+                    accept: o["accept"].as_u64().unwrap_or(0) as usize,
+                    draw: surf_parse(&o["cells"]),
+                    frame: o["frame"].as_bool().unwrap_or(true),
+                    pending: o["pending"].as_u64().map(|x| x as usize),
+                    keep: o["keep"].as_u64().unwrap_or(1) as usize,
+                })
+                .collect()
+        })
+        .unwrap_or_default()
+}
+
+fn its_json(its: &[It]) -> Value {
+    Value::Array(
+        its.iter()
+            .map(|i| json!({"accept": i.accept, "cells": surf_json(&i.draw), "frame": i.frame, "pending": i.pending, "keep": i.keep}))
+            .collect(),
+    )
+}
+
+/// A Terminal with an output queue of chunks: the commands executed between two polls form one
+/// chunk; at every poll the tty takes as many chunks as the script says; frames_pending() /
+/// frames_drop() behave like IOQueue::chunks_count / clear_but_last, or as scripted.
+struct LoopTerm {
+    size: TerminalSize,
+    caps: TerminalCaps,
+    its: Vec<It>,
+    idx: usize,                         // iteration in progress (advanced by poll)
+    cur: Vec<TerminalCommand>,          // commands since the last poll
+    dropped: bool,                      // frames_drop() was called since the last poll
+    npending: usize,                    // chunks in the queue
+    log: Vec<(bool, Vec<TerminalCommand>)>,
+}
+
+impl LoopTerm {
+    fn close_iteration(&mut self) {
+        let cmds = std::mem::take(&mut self.cur);
+        if !cmds.is_empty() {
+            self.npending += 1;
+        }
+        self.log.push((self.dropped, cmds));
+        self.dropped = false;
+    }
+}
+
+impl Write for LoopTerm {
+    fn write(&mut self, buf: &[u8]) -> std::io::Result<usize> {
+        Ok(buf.len())
+    }
+    fn flush(&mut self) -> std::io::Result<()> {
+        Ok(())
+    }
+}
+
+impl Terminal for LoopTerm {
+    fn execute(&mut self, cmd: TerminalCommand) -> Result<(), Error> {
+        self.cur.push(cmd);
+        Ok(())
+    }
+    fn poll(&mut self, _timeout: Option<std::time::Duration>) -> Result<Option<TerminalEvent>, Error> {
+        // flush: what was issued since the last poll is one chunk of the queue
+        if self.idx > 0 || !self.cur.is_empty() {
+            self.close_iteration();
+        }
+        let accept = self.its.get(self.idx).map(|i| i.accept).unwrap_or(0);
+        self.npending -= accept.min(self.npending);
+        self.idx += 1;
+        Ok(None)
+    }
+    fn size(&self) -> Result<TerminalSize, Error> {
+        Ok(self.size)
+    }
+    fn position(&mut self) -> Result<Position, Error> {
+        Ok(Position::new(0, 0))
+    }
+    fn waker(&self) -> TerminalWaker {
+        TerminalWaker::new(|| Ok(()))
+    }
+    fn frames_pending(&self) -> usize {
+        match self.its.get(self.idx.wrapping_sub(1)).and_then(|i| i.pending) {
+            Some(n) => n,
+            None => self.npending,
+        }
+    }
+    fn frames_drop(&mut self) {
+        let keep = self.its.get(self.idx.wrapping_sub(1)).map(|i| i.keep).unwrap_or(1);
+        self.npending = self.npending.min(keep);
+        self.dropped = true;
+    }
+    fn dyn_ref(&mut self) -> &mut dyn Terminal {
+        self
+    }
+    fn capabilities(&self) -> &TerminalCaps {
+        &self.caps
+    }
+}
+
+/// run the REAL Terminal::run_render with a scripted handler; one (dropped, commands) per iteration
+fn drive_loop(p: &Pools, h: usize, w: usize, its: &[It]) -> Option<Vec<(bool, Vec<(String, Value)>)>> {
+    let its_v = its.to_vec();
+    let res = std::panic::catch_unwind(std::panic::AssertUnwindSafe(move || {
+        let mut term = LoopTerm {
+            size: RecTerm::new(h, w).size,
+            caps: TerminalCaps::default(),
+            its: its_v.clone(),
+            idx: 0,
+            cur: vec![],
+            dropped: false,
+            npending: 0,
+            log: vec![],
+        };
+        let n = its_v.len();
+        let mut k = 0usize;
+        let r: Result<(), Error> = term.run_render(|_term, _event, mut surf| {
+            let it = &its_v[k];
+            for (r, row) in it.draw.iter().enumerate() {
+                for (c, cell) in row.iter().enumerate() {
+                    if r < h && c < w {
+                        surf.set(Position::new(r, c), to_cell(p, *cell));
+                    }
+                }
+            }
+            k += 1;
+            Ok(if k == n {
+                TerminalAction::Quit(())
+            } else if it.frame {
+                TerminalAction::Wait
+            } else {
+                TerminalAction::WaitNoFrame
+            })
+        });
+        r.expect("run_render");
+        term.close_iteration();
+        let mut namer = Namer::new(p);
+        term.log
+            .iter()
+            .enumerate()
+            .map(|(i, (d, cmds))| (*d, cmds.iter().map(|c| namer.cmd(c, &its_v[i].draw)).collect()))
+            .collect::<Vec<_>>()
+    }));
+    res.ok()
+}
+
+/// the image a cell displays, as numbered on the Coq side
+fn image_id(c: C) -> Option<u64> {
+    match c.k {
+        1 => Some(c.v as u64),
+        2 => Some(1000 + 16 * c.v as u64 + c.f as u64),
+        _ => None,
+    }
+}
+
+/// class DroppedImageErase: at some drop the terminal (after what survives) shows an image that the
+/// last issued frame does not have (mirrors Render/Loop.v stale_after_drop)
+fn stale_session(its: &[It], out: &[(bool, Vec<(String, Value)>)]) -> bool {
+    fn apply(pl: &mut HashSet<(u64, u64, u64)>, cmds: &[Value]) {
+        for c in cmds {
+            match c[0].as_str().unwrap_or("") {
+                "image" => {
+                    pl.insert((c[1].as_u64().unwrap_or(0), c[2].as_u64().unwrap_or(0), c[3].as_u64().unwrap_or(0)));
+                }
+                "image_erase" => {
+                    let i = c[1].as_u64().unwrap_or(0);
+                    if c.as_array().map(|a| a.len()).unwrap_or(0) >= 4 {
+                        pl.remove(&(i, c[2].as_u64().unwrap_or(0), c[3].as_u64().unwrap_or(0)));
+                    } else {
+                        pl.retain(|x| x.0 != i);
+                    }
+                }
+                _ => {}
+            }
+        }
+    }
+    let mut placed: HashSet<(u64, u64, u64)> = HashSet::new();
+    let mut q: VecDeque<Vec<Value>> = VecDeque::new();
+    let mut last: Option<&Surf> = None;
+    let mut stale = false;
+    for (it, (dropped, cmds)) in its.iter().zip(out.iter()) {
+        for _ in 0..it.accept.min(q.len()) {
+            let c = q.pop_front().unwrap();
+            apply(&mut placed, &c);
+        }
+        if !it.frame {
+            continue;
+        }
+        if *dropped {
+            q.truncate(it.keep);
+            let mut v = placed.clone();
+            for c in &q {
+                apply(&mut v, c);
+            }
+            for (i, r, c) in v {
+                let cell = last.and_then(|s| s.get(r as usize)).and_then(|row| row.get(c as usize)).copied();
+                if cell.and_then(image_id) != Some(i) {
+                    stale = true;
+                }
+            }
+        }
+        q.push_back(cmds.iter().map(|(_, j)| j.clone()).collect());
+        last = Some(&it.draw);
+    }
+    stale
+}
+
+#[allow(clippy::too_many_arguments)]
+fn run_loop(p: &Pools, input: &Value, widths_of: impl Fn(&BTreeSet<u32>) -> String, fsp: &str, fer: &str, ers: &str) -> Case {
+    let h = input["h"].as_u64().unwrap_or(1) as usize;
+    let w = input["w"].as_u64().unwrap_or(1) as usize;
+    let mut its = its_parse(&input["its"]);
+    if let Some(l) = its.last_mut() {
+        l.frame = true; // the session ends with TerminalAction::Quit, which renders a frame
+    }
+    let mut env = Env::new(p, h, w);
+    let mut chars: BTreeSet<u32> = BTreeSet::new();
+    chars.insert(0x20);
+    let mut glyph_ids: BTreeSet<(u32, u8)> = BTreeSet::new();
+    let mut good = true;
+    for it in &its {
+        for row in &it.draw {
+            for c in row {
+                match c.k {
+                    0 => {
+                        chars.insert(c.v);
+                    }
+                    2 => {
+                        glyph_ids.insert((c.v, c.f));
+                    }
+                    _ => {}
+                }
+            }
+        }
+        let k = overlap_kinds(&mut env, p, &it.draw, h, w);
+        if !in_domain(&mut env, p, &it.draw, h, w) || k.0 || k.1 {
+            good = false;
+        }
+    }
+    let mut isizes: Vec<String> =
+        env.isize.clone().iter().enumerate().map(|(i, (a, b))| format!("({}, ({}, {}))", i, a, b)).collect();
+    for (g, f) in &glyph_ids {
+        let (a, b) = env.glyph_size(p, *g, *f);
+        isizes.push(format!("({}, ({}, {}))", 1000 + 16 * (*g as u64) + *f as u64, a, b));
+    }
+    let observed = if its.is_empty() { Some(vec![]) } else { drive_loop(p, h, w, &its) };
+    let stale = good && observed.as_ref().map(|o| stale_session(&its, o)).unwrap_or(false);
+    let (impl_coq, impl_json, ndrops) = match &observed {
+        None => ("[(false, [COther])]".to_string(), json!("panic"), 0),
+        Some(out) => (
+            clist(out.iter().map(|(d, cs)| format!("({}, {})", cbool(*d), clist(cs.iter().map(|(s, _)| s.clone()))))),
+            Value::Array(out.iter().map(|(d, cs)| json!([d, Value::Array(cs.iter().map(|(_, j)| j.clone()).collect())])).collect()),
+            out.iter().filter(|(d, _)| *d).count(),
+        ),
+    };
+    let its_coq = clist(its.iter().map(|i| {
+        format!(
+            "itr {} {} {} {} {}",
+            i.accept,
+            surf_coq(&i.draw),
+            cbool(i.frame),
+            match i.pending { Some(n) => format!("(Some {})", n), None => "None".to_string() },
+            i.keep
+        )
+    }));
+    let mut j = json!({"kind": "loop", "h": h, "w": w, "its": its_json(&its)});
+    j["impl"] = impl_json;
+    if stale {
+        j["known_class"] = json!(["DroppedImageErase"]);
+    }
+    Case {
+        coq: format!(
+            "Loop {} {} {} {} {} {} {} {} {} {} {}",
+            h, w, widths_of(&chars), clist(isizes), fsp, fer, ers, its_coq, impl_coq, cbool(good), cbool(stale)
+        ),
+        json: j,
+        tags: vec![
+            "kind=loop".to_string(),
+            format!("loop-iterations={}", match its.len() { 0..=5 => "1-5", 6..=12 => "6-12", 13..=33 => "13-33", _ => "34+" }),
+            format!("loop-drops={}", match ndrops { 0 => "0", 1 => "1", _ => "2+" }),
+            format!("loop-stale={}", stale),
+        ],
+        nontrivial: ndrops > 0,
     }
 }
 
@@ -511,7 +1024,7 @@ struct Gen<'a> {
     env: Env,
     h: usize,
     w: usize,
-    free: bool, // keep surfaces overlap-free
+    mode: u8,   // 0: keep surfaces overlap-free, 1: wide characters may hide one another, 2: any overlap
     ood: bool,  // allow zero-width characters and a wide character in the last column
 }
 
@@ -550,6 +1063,17 @@ impl<'a> Gen<'a> {
         let c = rng.below(w as u64) as usize;
         match rng.below(19) {
             0 | 1 => s[r][c] = self.narrow(rng),
+            18 if self.mode != 0 => {
+                // a wide character directly before or behind another one
+                let ws = self.cells_where(s, |x| self.is_wide(x));
+                if !ws.is_empty() {
+                    let (r, c) = *rng.pick(&ws);
+                    let c2 = if rng.chance(1, 2) { c + 1 } else { c.saturating_sub(1) };
+                    if c2 + 2 <= w {
+                        s[r][c2] = C { k: 0, f: self.face(rng), v: *rng.pick(&WIDE) };
+                    }
+                }
+            }
             2 | 3 => {
                 // a wide character
                 if w >= 2 || self.ood {
@@ -639,7 +1163,9 @@ impl<'a> Gen<'a> {
         for _ in 0..n {
             let before = s.clone();
             self.edit(rng, &mut s);
-            let bad = (self.free && !overlap_free(&mut self.env, self.p, &s, self.h, self.w))
+            let k = overlap_kinds(&mut self.env, self.p, &s, self.h, self.w);
+            let bad = (self.mode == 0 && k != (false, false, false))
+                || (self.mode == 1 && (k.0 || k.1))
                 || (!self.ood && !in_domain(&mut self.env, self.p, &s, self.h, self.w));
             if bad {
                 s = before;
@@ -652,9 +1178,14 @@ impl<'a> Gen<'a> {
 fn gen_history(rng: &mut Rng, p: &Pools) -> Value {
     let h = if rng.chance(1, 3) { 1 + rng.below(2) as usize } else { 1 + rng.below(6) as usize };
     let w = if rng.chance(1, 4) { 1 + rng.below(3) as usize } else { 1 + rng.below(12) as usize };
-    let free = !rng.chance(1, 8);
+    let mode = match rng.below(8) {
+        0 => 2,
+        1 => 1,
+        _ => 0,
+    };
     let ood = rng.chance(1, 16);
-    let mut g = Gen { p, env: Env::new(p, h, w), h, w, free, ood };
+    let mut g = Gen { p, env: Env::new(p, h, w), h, w, mode, ood };
+    let (h0, w0) = (h, w);
     let n = 1 + rng.below(12) as usize;
     let mut ops: Vec<Op> = vec![];
     let mut prev = blank_surf(h, w);
@@ -668,6 +1199,35 @@ fn gen_history(rng: &mut Rng, p: &Pools) -> Value {
                 ops.push(Op::Skip);
             }
             3 => ops.push(Op::Frame), // a frame with nothing drawn
+            6 if rng.chance(1, 2) => {
+                // the terminal is resized and shows whatever it likes
+                let h2 = 1 + rng.below(5) as usize;
+                let w2 = 1 + rng.below(9) as usize;
+                ops.push(Op::Resize(h2, w2, gen_screen(rng, p, h2, w2)));
+                g = Gen { p, env: Env::new(p, h2, w2), h: h2, w: w2, mode, ood };
+                prev = blank_surf(h2, w2);
+            }
+            4 => {
+                // the frame-dropping path of run_render: the handler has drawn, then clear(), then frame()
+                let s = g.next_surface(rng, &prev);
+                prev = s.clone();
+                ops.push(Op::Draw(s));
+                ops.push(Op::Clear);
+                ops.push(Op::Frame);
+            }
+            5 => {
+                // drawn twice, or drawn and then the renderer is re-created
+                let s = g.next_surface(rng, &prev);
+                ops.push(Op::Draw(s));
+                if rng.chance(1, 2) {
+                    let s2 = g.next_surface(rng, &prev);
+                    prev = s2.clone();
+                    ops.push(Op::Draw(s2));
+                    ops.push(Op::Frame);
+                } else {
+                    ops.push(Op::Renew);
+                }
+            }
             _ => {
                 let s = g.next_surface(rng, &prev);
                 prev = s.clone();
@@ -676,7 +1236,50 @@ fn gen_history(rng: &mut Rng, p: &Pools) -> Value {
             }
         }
     }
-    json!({"h": h, "w": w, "ops": ops_json(&ops)})
+    json!({"h": h0, "w": w0, "ops": ops_json(&ops)})
+}
+
+fn gen_loop(rng: &mut Rng, p: &Pools) -> Value {
+    let long = rng.chance(1, 6);
+    let h = 1 + rng.below(if long { 2 } else { 3 }) as usize;
+    let w = 1 + rng.below(if long { 4 } else { 7 }) as usize;
+    let mut g = Gen { p, env: Env::new(p, h, w), h, w, mode: rng.below(2) as u8, ood: false };
+    let n = if long { 34 + rng.below(6) as usize } else { 2 + rng.below(9) as usize };
+    // a long session lets the queue fill up to the real threshold; short ones script the answer
+    let stall_from = rng.below(4) as usize;
+    let mut prev = blank_surf(h, w);
+    let mut its = vec![];
+    for i in 0..n {
+        let s = g.next_surface(rng, &prev);
+        let frame = !rng.chance(1, 7);
+        if frame {
+            prev = s.clone();
+        }
+        let accept = if long {
+            if i < stall_from { 1 + rng.below(2) as usize } else if rng.chance(1, 25) { 1 } else { 0 }
+        } else if rng.chance(1, 2) { 0 } else { rng.below(4) as usize };
+        let pending = if long || !rng.chance(1, 3) { None } else { Some(if rng.chance(3, 4) { 33 + rng.below(3) as usize } else { 32 }) };
+        let keep = if long || rng.chance(1, 2) { 1 } else { rng.below(4) as usize };
+        its.push(It { accept, draw: s, frame, pending, keep });
+    }
+    json!({"kind": "loop", "h": h, "w": w, "its": its_json(&its)})
+}
+
+fn gen_forced(rng: &mut Rng, p: &Pools) -> Value {
+    let h = 1 + rng.below(5) as usize;
+    let w = 1 + rng.below(10) as usize;
+    let mut g = Gen { p, env: Env::new(p, h, w), h, w, mode: rng.below(2) as u8, ood: false };
+    let s1 = g.next_surface(rng, &blank_surf(h, w));
+    let s = g.next_surface(rng, &s1);
+    let nf = rng.below(3);
+    let foreign: Vec<Value> = (0..nf)
+        .map(|_| {
+            let i = if rng.chance(1, 2) { rng.below(NIMAGES) } else { 777 };
+            json!([i, rng.below(h as u64), rng.below(w as u64)])
+        })
+        .collect();
+    json!({"kind": "forced", "h": h, "w": w, "screen": screen_json(&gen_screen(rng, p, h, w)), "foreign": foreign,
+           "ops": ops_json(&[Op::Draw(s), Op::Frame])})
 }
 
 pub fn generate(rng: &mut Rng, n: usize, _tier: &str) -> Vec<Value> {
@@ -684,18 +1287,66 @@ pub fn generate(rng: &mut Rng, n: usize, _tier: &str) -> Vec<Value> {
     // the shared generator's streams for neighbouring seeds are shifts of one another; re-seed
     // from its (well mixed) first output so that different VERIF_SEEDs give unrelated histories
     let mut rng = Rng(rng.next());
-    (0..n).map(|_| gen_history(&mut rng, &p)).collect()
+    (0..n)
+        .map(|_| match rng.below(12) {
+            0 => gen_forced(&mut rng, &p),
+            1 => gen_loop(&mut rng, &p),
+            _ => gen_history(&mut rng, &p),
+        })
+        .collect()
+}
+
+/// the operations before the first Draw of a surface with overlapping objects
+fn overlap_free_prefix(p: &Pools, input: &Value) -> Option<Value> {
+    if input["kind"].as_str().is_some() {
+        return None;
+    }
+    let h0 = input["h"].as_u64().unwrap_or(1) as usize;
+    let w0 = input["w"].as_u64().unwrap_or(1) as usize;
+    let (mut h, mut w) = (h0, w0);
+    let ops = ops_parse(&input["ops"]);
+    let mut env = Env::new(p, h, w);
+    let mut cut = None;
+    for (i, o) in ops.iter().enumerate() {
+        match o {
+            Op::Resize(h2, w2, _) => {
+                h = *h2;
+                w = *w2;
+            }
+            Op::Draw(s) => {
+                if s.len() == h && s.iter().all(|r| r.len() == w) && { let k = overlap_kinds(&mut env, p, s, h, w); k.0 || k.1 } {
+                    cut = Some(i);
+                    break;
+                }
+            }
+            _ => {}
+        }
+    }
+    let cut = cut?;
+    if cut == 0 {
+        return None;
+    }
+    Some(json!({"h": h0, "w": w0, "ops": ops_json(&ops[..cut])}))
 }
 
 pub fn batch(inputs: &[Value]) -> Batch {
     let p = pools();
+    let mut cases = vec![];
+    for i in inputs {
+        // a history with overlapping objects is judged as a whole under its known class, and
+        // (as a separate, unclassified case) up to the first overlapping surface
+        if let Some(prefix) = overlap_free_prefix(&p, i) {
+            cases.push(run(&p, &prefix));
+        }
+        cases.push(run(&p, i));
+    }
     Batch {
         prop: "C01",
         coq_import: "Corr.C01Corr",
         case_type: "c01_case",
         report_fn: "c01_report",
         rule: "history with at least two frames in which the renderer issued at least one command; distinct by (size, operations)",
-        cases: inputs.iter().map(|i| run(&p, i)).collect(),
+        cases,
         preamble: String::new(),
     }
 }
